@@ -79,6 +79,11 @@ def run(ck, F):
     for f in sorted(getters, key=lambda f: f['id']):
         tables.update(K.factory(f))
     K.finish_cover()
+    # the qualified constructor maps a request on an already-qualified operand to the node of its normal form: the same
+    # union of qualifiers over the same unqualified type is the same node, a different union a different node
+    import c11
+    c11.merge_rule_for(ck, F, 'C01')
+    K.finish_partial(())
     for r in (K.R_diag, K.R_cover, K.R_lex):
         ck.rules[r]['floor'] = 18
     ck.rules[K.R_atom]['floor'] = 2
